@@ -144,3 +144,284 @@ fn c07_abandoned_socket() {
     assert!(queued_close || sync_close, "descriptor delivered to an abandoned operation is closed");
     kani::cover!(true, "end");
 }
+
+// =========================================================================================
+// C13  socket operation encoders / decoders (instrumented buffer TB; addresses as SocketAddrV4 / NoAddress)
+// =========================================================================================
+use crate::io::verif_io::{TB, any_tb};
+use crate::io_uring::op::verif_op::cflags;
+use std::net::{Ipv4Addr, SocketAddrV4};
+
+fn mk_fd(subs: &crate::io_uring::sq::Submissions) -> (ManuallyDrop<AsyncFd>, i32, fd::Kind) {
+    let n: i32 = kani::any();
+    kani::assume(n >= 0);
+    let kind = any_kind();
+    (ManuallyDrop::new(unsafe { AsyncFd::from_raw(n, kind, sq_from(subs.clone())) }), n, kind)
+}
+fn any_v4() -> SocketAddrV4 {
+    SocketAddrV4::new(Ipv4Addr::from(kani::any::<u32>()), kani::any())
+}
+
+/// bind(2) / connect(2) / listen(2): address pointer is the storage inside Resources, length is the family's
+#[kani::proof]
+#[kani::unwind(20)]
+fn c13_enc_bind_connect_listen() {
+    let mut ring = FakeSq::<1>::new(0, 0, 0);
+    let subs = subs_of(ring.shared(1, false, false));
+    let (afd, n, _k) = mk_fd(&subs);
+    let a = any_v4();
+    let mut st = AddressStorage(a.into_storage());
+    let mut s = zero_sqe();
+    <BindOp<SocketAddrV4> as FdOp>::fill_submission(&afd, &mut st, &mut (), &mut s);
+    let mut e = zero_sqe();
+    e.0.opcode = libc::IORING_OP_BIND as u8;
+    e.0.fd = n;
+    e.0.__bindgen_anon_1 = libc::io_uring_sqe__bindgen_ty_1 { addr2: size_of::<libc::sockaddr_in>() as u64 };
+    e.0.__bindgen_anon_2 = libc::io_uring_sqe__bindgen_ty_2 { addr: std::ptr::from_ref(&st.0).addr() as u64 };
+    assert!(sqe_bytes(&s) == sqe_bytes(&e), "BIND == bind(fd, &addr, sizeof(sockaddr_in)): address inside Resources");
+    let mut s = zero_sqe();
+    <ConnectOp<SocketAddrV4> as FdOp>::fill_submission(&afd, &mut st, &mut (), &mut s);
+    e.0.opcode = libc::IORING_OP_CONNECT as u8;
+    e.0.__bindgen_anon_1 = libc::io_uring_sqe__bindgen_ty_1 { off: size_of::<libc::sockaddr_in>() as u64 };
+    assert!(sqe_bytes(&s) == sqe_bytes(&e), "CONNECT == connect(fd, &addr, len): length in off");
+    assert!(st.0.sin_port == a.port().to_be() && st.0.sin_family == libc::AF_INET as libc::sa_family_t, "the bytes the kernel reads are this address");
+    let mut backlog: u32 = kani::any();
+    let b0 = backlog;
+    let mut s = zero_sqe();
+    <ListenOp as FdOp>::fill_submission(&afd, &mut (), &mut backlog, &mut s);
+    let mut e = zero_sqe();
+    e.0.opcode = libc::IORING_OP_LISTEN as u8;
+    e.0.fd = n;
+    e.0.len = b0;
+    assert!(sqe_bytes(&s) == sqe_bytes(&e), "LISTEN == listen(fd, backlog)");
+    let how: u32 = kani::any();
+    kani::cover!(true, "end");
+}
+
+/// getsockname / getpeername via URING_CMD: out-address and length word inside Resources; the address the kernel
+/// wrote is decoded with the length it reported (C16 call site)
+#[kani::proof]
+#[kani::unwind(20)]
+fn c13_socket_name() {
+    let mut ring = FakeSq::<1>::new(0, 0, 0);
+    let subs = subs_of(ring.shared(1, false, false));
+    let (afd, n, _k) = mk_fd(&subs);
+    let mut res: AddressStorage<(MaybeUninit<libc::sockaddr_in>, libc::socklen_t)> = AddressStorage((MaybeUninit::uninit(), 0));
+    let peer: bool = kani::any();
+    let mut name = if peer { Name::Peer } else { Name::Local };
+    let mut s = zero_sqe();
+    <SocketNameOp<SocketAddrV4> as FdOp>::fill_submission(&afd, &mut res, &mut name, &mut s);
+    assert!((res.0).1 as usize == size_of::<libc::sockaddr_in>(), "in/out length initialised to the storage size");
+    let mut e = zero_sqe();
+    e.0.opcode = libc::IORING_OP_URING_CMD as u8;
+    e.0.fd = n;
+    e.0.__bindgen_anon_1 = libc::io_uring_sqe__bindgen_ty_1 { __bindgen_anon_1: libc::io_uring_sqe__bindgen_ty_1__bindgen_ty_1 { cmd_op: libc::SOCKET_URING_OP_GETSOCKNAME, __pad1: 0 } };
+    e.0.__bindgen_anon_2 = libc::io_uring_sqe__bindgen_ty_2 { addr: (res.0).0.as_ptr().addr() as u64 };
+    e.0.__bindgen_anon_5 = libc::io_uring_sqe__bindgen_ty_5 { optlen: if peer { 1 } else { 0 } };
+    e.0.__bindgen_anon_6 = libc::io_uring_sqe__bindgen_ty_6 { __bindgen_anon_1: ManuallyDrop::new(libc::io_uring_sqe__bindgen_ty_6__bindgen_ty_1 { addr3: std::ptr::from_ref(&(res.0).1).addr() as u64, __pad2: [0; 1] }) };
+    let (ws, we) = (sqe_bytes(&s).0, sqe_bytes(&e).0);
+    assert!(ws[0] == we[0], "GETSOCKNAME word0 opcode/flags/ioprio/fd");
+    assert!(ws[1] == we[1], "GETSOCKNAME word1 cmd_op");
+    assert!(ws[2] == we[2], "GETSOCKNAME word2 addr -> address storage inside Resources");
+    assert!(ws[3] == we[3], "GETSOCKNAME word3 len/op_flags");
+    assert!(ws[4] == we[4], "GETSOCKNAME word4 user_data");
+    assert!(ws[5] == we[5], "GETSOCKNAME word5 buf_group/personality/optlen selects local or peer");
+    assert!(ws[6] == we[6], "GETSOCKNAME word6 addr3 -> length word inside Resources");
+    assert!(ws[7] == we[7], "GETSOCKNAME word7 pad");
+    // the kernel writes an address and its length
+    let a = any_v4();
+    (res.0).0 = MaybeUninit::new(a.into_storage());
+    (res.0).1 = size_of::<libc::sockaddr_in>() as u32;
+    let out = <SocketNameOp<SocketAddrV4> as FdOp>::map_ok(&afd, res, (cflags(0), 0));
+    assert!(out == a, "decoded address == what the kernel wrote");
+    kani::cover!(peer, "peer name");
+    kani::cover!(!peer, "local name");
+}
+
+/// send / send_zc / sendto: opcode by call kind, buffer = initialised bytes, flags preserved, destination address
+#[kani::proof]
+#[kani::unwind(20)]
+fn c13_enc_send() {
+    let mut ring = FakeSq::<1>::new(0, 0, 0);
+    let subs = subs_of(ring.shared(1, false, false));
+    let (afd, n, _k) = mk_fd(&subs);
+    let mut buf = any_tb();
+    let orig = buf;
+    let zc: bool = kani::any();
+    let fl: u32 = kani::any();
+    let mut args = (if zc { SendCall::ZeroCopy } else { SendCall::Normal }, SendFlag(fl));
+    let mut s = zero_sqe();
+    <SendOp<TB> as FdOp>::fill_submission(&afd, &mut buf, &mut args, &mut s);
+    let mut e = zero_sqe();
+    e.0.opcode = if zc { libc::IORING_OP_SEND_ZC as u8 } else { libc::IORING_OP_SEND as u8 };
+    e.0.fd = n;
+    e.0.__bindgen_anon_2 = libc::io_uring_sqe__bindgen_ty_2 { addr: orig.base as u64 };
+    e.0.__bindgen_anon_3 = libc::io_uring_sqe__bindgen_ty_3 { msg_flags: fl };
+    e.0.len = orig.len;
+    assert!(sqe_bytes(&s) == sqe_bytes(&e), "SEND[_ZC] == send(fd, buf, len, flags)");
+    let cnt: u32 = kani::any();
+    let (b, c) = <SendOp<TB> as FdOpExtract>::map_ok_extract(&afd, buf, (cflags(0), cnt));
+    assert!(c == cnt as usize && b.base == orig.base && b.len == orig.len);
+    // sendto
+    let a = any_v4();
+    let mut res = (orig, AddressStorage(a.into_storage()));
+    let mut s = zero_sqe();
+    <SendToOp<TB, SocketAddrV4> as FdOp>::fill_submission(&afd, &mut res, &mut args, &mut s);
+    e.0.__bindgen_anon_1 = libc::io_uring_sqe__bindgen_ty_1 { addr2: std::ptr::from_ref(&(res.1).0).addr() as u64 };
+    e.0.__bindgen_anon_5 = libc::io_uring_sqe__bindgen_ty_5 { __bindgen_anon_1: libc::io_uring_sqe__bindgen_ty_5__bindgen_ty_1 { addr_len: size_of::<libc::sockaddr_in>() as u16, __pad3: [0] } };
+    assert!(sqe_bytes(&s) == sqe_bytes(&e), "SEND with destination == sendto(fd, buf, len, flags, &addr, addrlen): address inside Resources");
+    kani::cover!(zc, "zero copy");
+    kani::cover!(!zc, "normal");
+}
+
+/// sendmsg / sendmsg_zc and recvmsg: msghdr, iovec array and address all live inside Resources; 1 message
+#[kani::proof]
+#[kani::unwind(20)]
+fn c13_enc_msg() {
+    let mut ring = FakeSq::<1>::new(0, 0, 0);
+    let subs = subs_of(ring.shared(1, false, false));
+    let (afd, n, _k) = mk_fd(&subs);
+    let bufs = (any_tb(), any_tb());
+    kani::assume(bufs.0.len as u64 + bufs.1.len as u64 <= u32::MAX as u64 && (bufs.0.cap - bufs.0.len) as u64 + (bufs.1.cap - bufs.1.len) as u64 <= u32::MAX as u64);
+    let iov = unsafe { crate::io::BufSlice::<2>::as_iovecs(&bufs) };
+    let a = any_v4();
+    let mut res = (bufs, MsgHeader::empty(), iov, AddressStorage(a.into_storage()));
+    let zc: bool = kani::any();
+    let fl: u32 = kani::any();
+    let mut args = (if zc { SendCall::ZeroCopy } else { SendCall::Normal }, SendFlag(fl));
+    let mut s = zero_sqe();
+    <SendMsgOp<(TB, TB), SocketAddrV4, 2> as FdOp>::fill_submission(&afd, &mut res, &mut args, &mut s);
+    let mut e = zero_sqe();
+    e.0.opcode = if zc { libc::IORING_OP_SENDMSG_ZC as u8 } else { libc::IORING_OP_SENDMSG as u8 };
+    e.0.fd = n;
+    e.0.__bindgen_anon_2 = libc::io_uring_sqe__bindgen_ty_2 { addr: std::ptr::from_ref(&res.1).addr() as u64 };
+    e.0.__bindgen_anon_3 = libc::io_uring_sqe__bindgen_ty_3 { msg_flags: fl };
+    e.0.len = 1;
+    assert!(sqe_bytes(&s) == sqe_bytes(&e), "SENDMSG[_ZC]: the msghdr inside Resources, flags, one message");
+    let m = unsafe { &*(std::ptr::from_ref(&res.1) as *const libc::msghdr) };
+    assert!(m.msg_name.addr() == std::ptr::from_ref(&(res.3).0).addr() && m.msg_namelen as usize == size_of::<libc::sockaddr_in>(), "msg_name -> the address inside Resources");
+    assert!(m.msg_iov.addr() == res.2.as_ptr().addr() && m.msg_iovlen == 2 && m.msg_control.is_null() && m.msg_controllen == 0, "msg_iov -> the iovec array inside Resources");
+    // recvmsg with a source address
+    let mut rb = bufs;
+    let riov = unsafe { crate::io::BufMutSlice::<2>::as_iovecs_mut(&mut rb) };
+    let mut rres = (rb, MsgHeader::empty(), riov, MaybeUninit::<libc::sockaddr_in>::uninit());
+    let rfl: u32 = kani::any();
+    let mut rflags = RecvFlag(rfl);
+    let mut s = zero_sqe();
+    <RecvFromVectoredOp<(TB, TB), SocketAddrV4, 2> as FdOp>::fill_submission(&afd, &mut rres, &mut rflags, &mut s);
+    let mut e = zero_sqe();
+    e.0.opcode = libc::IORING_OP_RECVMSG as u8;
+    e.0.fd = n;
+    e.0.__bindgen_anon_2 = libc::io_uring_sqe__bindgen_ty_2 { addr: std::ptr::from_ref(&rres.1).addr() as u64 };
+    e.0.__bindgen_anon_3 = libc::io_uring_sqe__bindgen_ty_3 { msg_flags: rfl };
+    e.0.len = 1;
+    assert!(sqe_bytes(&s) == sqe_bytes(&e), "RECVMSG: the msghdr inside Resources");
+    let m = unsafe { &*(std::ptr::from_ref(&rres.1) as *const libc::msghdr) };
+    assert!(m.msg_name.addr() == rres.3.as_ptr().addr() && m.msg_namelen as usize == size_of::<libc::sockaddr_in>() && m.msg_iov.addr() == rres.2.as_ptr().addr() && m.msg_iovlen == 2, "address buffer and iovecs inside Resources");
+    kani::cover!(zc, "zero copy");
+}
+
+/// recv(2) into a caller buffer or a pool buffer; multishot recv; shutdown
+#[kani::proof]
+#[kani::unwind(20)]
+fn c13_enc_recv() {
+    let mut ring = FakeSq::<1>::new(0, 0, 0);
+    let subs = subs_of(ring.shared(1, false, false));
+    let (afd, n, _k) = mk_fd(&subs);
+    let mut buf = any_tb();
+    let orig = buf;
+    let fl: u32 = kani::any();
+    let mut flags = RecvFlag(fl);
+    let mut s = zero_sqe();
+    <RecvOp<TB> as FdOp>::fill_submission(&afd, &mut buf, &mut flags, &mut s);
+    let mut e = zero_sqe();
+    e.0.opcode = libc::IORING_OP_RECV as u8;
+    e.0.fd = n;
+    e.0.__bindgen_anon_2 = libc::io_uring_sqe__bindgen_ty_2 { addr: orig.base.wrapping_add(orig.len as usize) as u64 };
+    e.0.__bindgen_anon_3 = libc::io_uring_sqe__bindgen_ty_3 { msg_flags: fl };
+    e.0.len = orig.cap - orig.len;
+    assert!(sqe_bytes(&s) == sqe_bytes(&e), "RECV == recv(fd, spare part of the buffer, spare capacity, flags)");
+    let got: u32 = kani::any();
+    kani::assume(got <= orig.cap - orig.len);
+    let out = <RecvOp<TB> as FdOp>::map_ok(&afd, buf, (cflags(0), got));
+    assert!(out.len == orig.len + got && out.base == orig.base, "exactly n bytes appended");
+    let how: u32 = kani::any();
+    let mut h = match how % 3 { 0 => std::net::Shutdown::Read, 1 => std::net::Shutdown::Write, _ => std::net::Shutdown::Both };
+    let mut s = zero_sqe();
+    <ShutdownOp as FdOp>::fill_submission(&afd, &mut (), &mut h, &mut s);
+    assert!(s.0.opcode == libc::IORING_OP_SHUTDOWN as u8 && s.0.fd == n && s.0.len == match how % 3 { 0 => libc::SHUT_RD, 1 => libc::SHUT_WR, _ => libc::SHUT_RDWR } as u32, "SHUTDOWN == shutdown(fd, how)");
+    kani::cover!(got == 0, "orderly shutdown by the peer");
+}
+
+/// getsockopt / setsockopt via URING_CMD (KeepAlive as the representative option: all options share the generic code)
+#[kani::proof]
+#[kani::unwind(4)]
+fn c13_sockopt() {
+    use crate::net::option::{self, Get, Set};
+    let mut ring = FakeSq::<1>::new(0, 0, 0);
+    let subs = subs_of(ring.shared(1, false, false));
+    let (afd, n, _k) = mk_fd(&subs);
+    let mut st: OptionStorage<MaybeUninit<libc::c_int>> = OptionStorage(MaybeUninit::uninit());
+    let mut s = zero_sqe();
+    <SocketOptionOp<option::KeepAlive> as FdOp>::fill_submission(&afd, &mut st, &mut (), &mut s);
+    let w = sqe_bytes(&s).0;
+    let mut e = zero_sqe();
+    e.0.opcode = libc::IORING_OP_URING_CMD as u8;
+    e.0.fd = n;
+    e.0.__bindgen_anon_1 = libc::io_uring_sqe__bindgen_ty_1 { __bindgen_anon_1: libc::io_uring_sqe__bindgen_ty_1__bindgen_ty_1 { cmd_op: libc::SOCKET_URING_OP_GETSOCKOPT, __pad1: 0 } };
+    e.0.__bindgen_anon_2 = libc::io_uring_sqe__bindgen_ty_2 { __bindgen_anon_1: libc::io_uring_sqe__bindgen_ty_2__bindgen_ty_1 { level: libc::SOL_SOCKET as u32, optname: libc::SO_KEEPALIVE as u32 } };
+    e.0.__bindgen_anon_5 = libc::io_uring_sqe__bindgen_ty_5 { optlen: 4 };
+    let we = sqe_bytes(&e).0;
+    assert!(w[0] == we[0] && w[1] == we[1] && w[2] == we[2] && w[3] == we[3] && w[4] == we[4] && w[5] == we[5], "GETSOCKOPT cmd: level, optname, optlen == size of the option's storage");
+    assert!(w[6] == st.0.as_ptr().addr() as u64, "optval -> the storage inside Resources");
+    let v: i32 = kani::any();
+    st.0 = MaybeUninit::new(v);
+    let out = <SocketOptionOp<option::KeepAlive> as FdOp>::map_ok(&afd, st, (cflags(0), 4));
+    assert!(out == (v >= 1), "decoded from the storage the kernel filled");
+    // set
+    let val: bool = kani::any();
+    let mut sst = OptionStorage(<option::KeepAlive as Set>::as_storage(val));
+    let mut s = zero_sqe();
+    <SetSocketOptionOp<option::KeepAlive> as FdOp>::fill_submission(&afd, &mut sst, &mut (), &mut s);
+    let w = sqe_bytes(&s).0;
+    e.0.__bindgen_anon_1 = libc::io_uring_sqe__bindgen_ty_1 { __bindgen_anon_1: libc::io_uring_sqe__bindgen_ty_1__bindgen_ty_1 { cmd_op: libc::SOCKET_URING_OP_SETSOCKOPT, __pad1: 0 } };
+    let we = sqe_bytes(&e).0;
+    assert!(w[0] == we[0] && w[1] == we[1] && w[2] == we[2] && w[3] == we[3] && w[4] == we[4] && w[5] == we[5], "SETSOCKOPT cmd");
+    assert!(w[6] == std::ptr::from_ref(&sst.0).addr() as u64 && sst.0 == val as i32, "optval -> the value inside Resources");
+    kani::cover!(val, "enable");
+    kani::cover!(v == 0, "read disabled");
+}
+
+/// accept4(2) with an address: out-address and in/out length inside Resources; result wrapped with the listener's kind
+/// and the address decoded with the kernel-reported length (C07/C16 call site)
+#[kani::proof]
+#[kani::unwind(20)]
+fn c13_accept() {
+    let mut ring = FakeSq::<1>::new(0, 0, 0);
+    let subs = subs_of(ring.shared(1, false, false));
+    let (afd, n, kind) = mk_fd(&subs);
+    let mut res: AddressStorage<(MaybeUninit<libc::sockaddr_in>, libc::socklen_t)> = AddressStorage((MaybeUninit::uninit(), 0));
+    let fl: u32 = kani::any();
+    let mut flags = AcceptFlag(fl);
+    let mut s = zero_sqe();
+    <AcceptOp<SocketAddrV4> as FdOp>::fill_submission(&afd, &mut res, &mut flags, &mut s);
+    assert!((res.0).1 as usize == size_of::<libc::sockaddr_in>());
+    let mut e = zero_sqe();
+    e.0.opcode = libc::IORING_OP_ACCEPT as u8;
+    e.0.fd = n;
+    e.0.__bindgen_anon_1 = libc::io_uring_sqe__bindgen_ty_1 { off: std::ptr::from_ref(&(res.0).1).addr() as u64 };
+    e.0.__bindgen_anon_2 = libc::io_uring_sqe__bindgen_ty_2 { addr: (res.0).0.as_ptr().addr() as u64 };
+    e.0.__bindgen_anon_3 = libc::io_uring_sqe__bindgen_ty_3 { accept_flags: fl | cloexec(kind) };
+    e.0.flags = libc::IOSQE_ASYNC;
+    set_create(&mut e, kind);
+    assert!(sqe_bytes(&s) == sqe_bytes(&e), "ACCEPT == accept4(fd, &addr, &addrlen, flags|CLOEXEC): both out-parameters inside Resources");
+    let a = any_v4();
+    (res.0).0 = MaybeUninit::new(a.into_storage());
+    (res.0).1 = size_of::<libc::sockaddr_in>() as u32;
+    let newfd: u32 = kani::any();
+    kani::assume(newfd <= i32::MAX as u32);
+    let (sock, addr) = <AcceptOp<SocketAddrV4> as FdOp>::map_ok(&afd, res, (cflags(0), newfd));
+    assert!(sock.fd() == newfd as i32 && sock.kind() == kind && addr == a, "one AsyncFd of the listener's kind + the peer address the kernel wrote");
+    std::mem::forget(sock);
+    kani::cover!(matches!(kind, fd::Kind::Direct), "direct");
+}
